@@ -1,7 +1,7 @@
 #!/usr/bin/env python3
 """regex2coq: translate the two `(?x)` regular expressions of sophia_iri into Coq terms.
 
-    python3 regex2coq.py <repo_root> <out_dir>        writes <out_dir>/RegexSrc.v
+    python3 regex2coq.py <repo_root> <out_dir>        writes <out_dir>/RegexAtoms.v and <out_dir>/RegexSrc.v
     python3 regex2coq.py --word "f 3⋅f 9" [<repo_root>]   atoms of a `ka` counter-example -> string
 
 The translator reads IRI_REGEX_SRC and IRELATIVE_REF_REGEX_SRC from <repo_root>/iri/src/_regex.rs
@@ -83,14 +83,9 @@ def atom_table():
         nxt = hi + 1
     if nxt <= MAXCP:
         out.append((nxt, MAXCP, 0))
-    # merge neighbours of the same atom
-    merged = []
-    for lo, hi, aid in out:
-        if merged and merged[-1][2] == aid and merged[-1][1] + 1 == lo:
-            merged[-1] = (merged[-1][0], hi, aid)
-        else:
-            merged.append((lo, hi, aid))
-    return merged
+    # entries are deliberately NOT merged: every listed atom range stays one entry, so that a class
+    # written as a list of single characters still contains each entry within one of its ranges
+    return out
 
 
 def norm_ranges(rs):
@@ -127,7 +122,14 @@ def atoms_of_class(rs, table):
     for aid in full:
         if ("out", aid) in part:
             raise ValueError("class %s covers only some ranges of atom %d (%s)" % (fmt_ranges(rs), aid, ATOMS[aid][1]))
-    return sorted(full)
+    # same order as C09/Model.v `atoms_in`: atoms of the covered entries in table order, keeping the
+    # LAST occurrence of each atom
+    seq = [aid for lo, hi, aid in table if aid in full]
+    out = []
+    for i, aid in enumerate(seq):
+        if aid not in seq[i + 1:]:
+            out.append(aid)
+    return out
 
 
 def fmt_ranges(rs):
@@ -460,8 +462,8 @@ class Emitter:
         return "(%s %s %s)" % ("Alt" if t == "alt" else "Cat", self.abst(r[1]), self.abst(r[2]))
 
 
-HEADER = """(* GENERATED by lib/regex2coq.py from %(src)s -- do not edit.
-   sha256 of the two regex sources: %(sha)s *)
+ATOMS_HEADER = """(* GENERATED by lib/regex2coq.py -- do not edit.  This file only depends on the translator's fixed atom
+   vocabulary, not on the regex sources: it stays byte-identical when the regexes change. *)
 From Coq Require Import NArith List.
 Import ListNotations.
 Open Scope N_scope.
@@ -482,6 +484,14 @@ Definition atom_table : list (N * N * N) :=
   [%(table)s].
 (* one representative code point per atom (used to print counter-examples) *)
 Definition atom_repr : list N := [%(reprs)s].
+"""
+
+HEADER = """(* GENERATED by lib/regex2coq.py from %(src)s -- do not edit.
+   sha256 of the two regex sources: %(sha)s *)
+From Coq Require Import NArith List.
+From Sophia.gen Require Export RegexAtoms.
+Import ListNotations.
+Open Scope N_scope.
 """
 
 
@@ -536,9 +546,10 @@ def translate(repo_root):
     sha = hashlib.sha256(("\0".join(srcs[n] for n in sorted(srcs))).encode("utf8")).hexdigest()
     atomdoc = "\n".join("   %2d %-9s %s" % (aid, nm, "(everything else)" if rs is None else fmt_ranges(norm_ranges(rs)))
                         for aid, nm, _rep, rs in ATOMS)
-    text = HEADER % dict(src=path, sha=sha, atomdoc=atomdoc, natoms=len(ATOMS),
-                         table=";\n   ".join("(%d, %d, %d)" % t for t in table),
-                         reprs="; ".join(str(ord(rep)) for _a, _n, rep, _r in ATOMS))
+    atoms_text = ATOMS_HEADER % dict(atomdoc=atomdoc, natoms=len(ATOMS),
+                                     table=";\n   ".join("(%d, %d, %d)" % t for t in table),
+                                     reprs="; ".join(str(ord(rep)) for _a, _n, rep, _r in ATOMS))
+    text = HEADER % dict(src=path, sha=sha)
     text += "\n(* the distinct character classes of the two sources *)\n" + "\n".join(cls_defs) + "\n"
     text += "Definition all_classes : list cclass := [%s].\n" % "; ".join("k%d" % k for k in range(len(em.order)))
     text += "\n(* (c) the regexes, leaves = classes of the source *)\n"
@@ -548,8 +559,9 @@ def translate(repo_root):
     for coqname, _, abst in bodies:
         text += "Definition %s_atoms : rex N :=\n  %s.\n" % (coqname, abst)
     info = {"regex_source_sha256": sha[:16], "regex_classes": len(em.order), "regex_atoms": len(ATOMS),
-            "RegexSrc.v.sha256": hashlib.sha256(text.encode()).hexdigest()[:16]}
-    return text, info, asts
+            "RegexSrc.v.sha256": hashlib.sha256(text.encode()).hexdigest()[:16],
+            "RegexAtoms.v.sha256": hashlib.sha256(atoms_text.encode()).hexdigest()[:16]}
+    return (atoms_text, text), info, asts
 
 
 def _write_if_changed(path, text):
@@ -568,8 +580,10 @@ def gen_regex(root, repo_root=None, out_dir=None):
     """translator entry point for ./check: (ok, info); writes <root>/coq/gen/RegexSrc.v"""
     info = {}
     try:
-        text, info, _ = translate(repo_root or REPO)
-        _write_if_changed(os.path.join(out_dir or os.path.join(root, "coq/gen"), "RegexSrc.v"), text)
+        (atoms_text, text), info, _ = translate(repo_root or REPO)
+        out = out_dir or os.path.join(root, "coq/gen")
+        _write_if_changed(os.path.join(out, "RegexAtoms.v"), atoms_text)
+        _write_if_changed(os.path.join(out, "RegexSrc.v"), text)
         return True, info
     except Exception as e:   # unparsable / unaligned source is treated like a broken proof
         info["error"] = "gen_regex: %s: %s" % (type(e).__name__, e)
